@@ -17,6 +17,12 @@ Definition m2C (a b c d : C) : CM := fun x y =>
   | _, _ => C0
   end.
 
+Definition m4C (f : bool -> bool -> bool -> bool -> C) : CM := fun x y =>
+  match x, y with
+  | cons a (cons b nil), cons c (cons d nil) => f a b c d
+  | _, _ => C0
+  end.
+
 Definition rho0 : nat -> C := fun _ => C1.
 Definition constM (k : gkind) : CM :=
   let '(M, s) := gmat k [] in fun x y => cpow rhC s * lp_eval rho0 (M x y).
@@ -32,6 +38,23 @@ Definition rmat (k : gkind) (ps : list R) : CM :=
   | KU3, t :: p :: l :: nil =>
       m2C (RtoC (cos (t / 2))) (- (Cexp l * RtoC (sin (t / 2))))
           (Cexp p * RtoC (sin (t / 2))) (Cexp (p + l) * RtoC (cos (t / 2)))
+  (* native gates (docstrings of quri_parts.quantinuum.circuit.gates / quri_parts.ionq.circuit.gates; RZZ without its
+     scalar prefactor; the IonQ phases in radians) *)
+  | KU1q, t :: p :: nil =>
+      m2C (RtoC (cos (t / 2))) (- Ci * Cexp (- p) * RtoC (sin (t / 2)))
+          (- Ci * Cexp p * RtoC (sin (t / 2))) (RtoC (cos (t / 2)))
+  | KRZZ, a :: nil =>
+      m4C (fun x0 x1 y0 y1 => if Bool.eqb x0 y0 && Bool.eqb x1 y1 then (if xorb x0 x1 then Cexp a else C1) else C0)
+  | KXX, a :: nil =>
+      m4C (fun x0 x1 y0 y1 => if Bool.eqb x0 y0 && Bool.eqb x1 y1 then RtoC (cos a)
+                              else if Bool.eqb x0 (negb y0) && Bool.eqb x1 (negb y1) then - Ci * RtoC (sin a) else C0)
+  | KGPi, p :: nil => m2C C0 (Cexp (- p)) (Cexp p) C0
+  | KGPi2, p :: nil => m2C (RtoC rh) (RtoC rh * (- Ci * Cexp (- p))) (RtoC rh * (- Ci * Cexp p)) (RtoC rh)
+  | KMS, p0 :: p1 :: nil =>
+      m4C (fun x0 x1 y0 y1 => if Bool.eqb x0 y0 && Bool.eqb x1 y1 then RtoC rh
+                              else if Bool.eqb x0 (negb y0) && Bool.eqb x1 (negb y1)
+                                   then RtoC rh * (- Ci * (Cexp (if x0 then p0 else - p0) * Cexp (if x1 then p1 else - p1)))
+                                   else C0)
   | _, _ => constM k
   end.
 
@@ -133,14 +156,15 @@ Proof. induction p as [|t p IH]; simpl; intros H; [reflexivity|].
   rewrite !meval_is1 by auto. reflexivity. Qed.
 
 Definition is_const (k : gkind) : bool :=
-  match k with KRX | KRY | KRZ | KU1 | KU2 | KU3 => false | _ => true end.
+  match k with KRX | KRY | KRZ | KU1 | KU2 | KU3 | KU1q | KRZZ | KXX | KGPi | KGPi2 | KMS => false | _ => true end.
 Definition const_closedb (k : gkind) : bool :=
   let '(M, _) := gmat k [] in
   forallb (fun x => forallb (fun y => lp_closedb (M x y)) (allbits (arity k))) (allbits (arity k)).
 Definition all_kinds : list gkind :=
   [KI; KX; KY; KZ; KH; KS; KSdag; KSqrtX; KSqrtXdag; KSqrtY; KSqrtYdag; KT; KTdag;
    KRX; KRY; KRZ; KU1; KU2; KU3; KCNOT; KCZ; KSWAP; KTOFFOLI].
-Lemma all_const_closed : forallb (fun k => implb (is_const k) (const_closedb k)) all_kinds = true.
+Definition native_kinds : list gkind := [KU1q; KZZ; KRZZ; KXX; KGPi; KGPi2; KMS].
+Lemma all_const_closed : forallb (fun k => implb (is_const k) (const_closedb k)) (all_kinds ++ native_kinds) = true.
 Proof. vm_compute. reflexivity. Qed.
 
 Lemma m2_phi rho a b c d x y :
@@ -153,6 +177,15 @@ Lemma m2C_scale (k : C) A B C' D A' B' C'' D' x y :
   m2C A B C' D x y = k * m2C A' B' C'' D' x y.
 Proof. intros -> -> -> ->. unfold m2C.
   destruct x as [|[] [|? ?]], y as [|[] [|? ?]]; ring. Qed.
+
+Lemma m4_phi rho f x y :
+  lp_eval rho (m4 f x y) = m4C (fun a b c d => lp_eval rho (f a b c d)) x y.
+Proof. destruct x as [|a [|b [|? ?]]], y as [|c [|d [|? ?]]]; reflexivity. Qed.
+
+Lemma m4C_scale (k : C) F G x y :
+  (forall a b c d, F a b c d = k * G a b c d) -> m4C F x y = k * m4C G x y.
+Proof. intros H. unfold m4C.
+  destruct x as [|a [|b [|? ?]]], y as [|c [|d [|? ?]]]; try ring. apply H. Qed.
 
 Section Unit2.
 Variable theta : nat -> R.
@@ -192,7 +225,7 @@ Proof.
   intros Hk. exists C1; split; [apply Cunit_1|]. intros x y Hx Hy.
   assert (Hc : const_closedb k = true).
   { pose proof all_const_closed as H. rewrite forallb_forall in H.
-    assert (Hin : In k all_kinds) by (destruct k; simpl; tauto).
+    assert (Hin : In k (all_kinds ++ native_kinds)) by (destruct k; simpl; tauto).
     specialize (H k Hin). rewrite Hk in H. exact H. }
   assert (E : rmat k (map (ang_eval theta) []) = constM k) by (destruct k; try discriminate; reflexivity).
   rewrite E. unfold constM, const_closedb in *. destruct (gmat k []) as [M s]. simpl.
@@ -275,11 +308,90 @@ Proof.
   destruct P as [pr pim], L as [lr lim].
   apply m2C_scale; trig h.
 Qed.
+Lemma unit_form_U1q t p : Z.even (api4 t) = true -> unit_form KU1q [t; p].
+Proof.
+  intros He. exists C1; split; [apply Cunit_1|]. intros x y _ _.
+  cbn [map rmat gmat fst snd].
+  rewrite m2_phi. repeat rewrite ?phi_mul, ?phi_opp, ?phi_add, ?phi_sub, ?phi_conj, ?phi_ci.
+  rewrite !ang_exp_eval, (ang_exp_half_eval theta t He).
+  set (h := (ang_eval theta t / 2)%R). rewrite Cexp_neg.
+  set (P := Cexp (ang_eval theta p)).
+  transitivity (cpow rhC 2 *
+     m2C (Cexp h + Cconj (Cexp h)) (- Ci * (Cconj P * (- Ci * (Cexp h - Cconj (Cexp h)))))
+         (- Ci * (P * (- Ci * (Cexp h - Cconj (Cexp h))))) (Cexp h + Cconj (Cexp h)) x y); [|ring].
+  destruct P as [pr pim].
+  apply m2C_scale; trig h.
+Qed.
+
+Lemma unit_form_RZZ a : unit_form KRZZ [a].
+Proof.
+  exists C1; split; [apply Cunit_1|]. intros x y _ _.
+  cbn [map rmat gmat fst snd cpow]. rewrite m4_phi.
+  transitivity (C1 * m4C (fun a0 b c d : bool =>
+      phi (if Bool.eqb a0 c && Bool.eqb b d then if xorb a0 b then ang_exp a else one else lp0)) x y); [|ring].
+  apply m4C_scale. intros x0 x1 y0 y1.
+  destruct (Bool.eqb x0 y0 && Bool.eqb x1 y1); [|rewrite phi_0; ring].
+  destruct (xorb x0 x1); [rewrite ang_exp_eval|rewrite phi_one]; ring.
+Qed.
+
+Lemma unit_form_XX a : unit_form KXX [a].
+Proof.
+  exists C1; split; [apply Cunit_1|]. intros x y _ _.
+  cbn [map rmat gmat fst snd]. rewrite m4_phi.
+  set (h := ang_eval theta a).
+  transitivity (cpow rhC 2 * m4C (fun a0 b c d : bool =>
+      phi (if Bool.eqb a0 c && Bool.eqb b d then lp_add (ang_exp a) (lp_conj (ang_exp a))
+           else if Bool.eqb a0 (negb c) && Bool.eqb b (negb d) then lp_sub (lp_conj (ang_exp a)) (ang_exp a) else lp0)) x y); [|ring].
+  apply m4C_scale. intros x0 x1 y0 y1.
+  destruct (Bool.eqb x0 y0 && Bool.eqb x1 y1).
+  - rewrite phi_add, phi_conj, ang_exp_eval. fold h. trig h.
+  - destruct (Bool.eqb x0 (negb y0) && Bool.eqb x1 (negb y1)).
+    + rewrite phi_sub, phi_conj, ang_exp_eval. fold h. trig h.
+    + rewrite phi_0. ring.
+Qed.
+
+Lemma unit_form_GPi p : unit_form KGPi [p].
+Proof.
+  exists C1; split; [apply Cunit_1|]. intros x y _ _.
+  cbn [map rmat gmat fst snd cpow].
+  rewrite m2_phi, phi_conj, phi_0, ang_exp_eval, Cexp_neg.
+  unfold m2C. destruct x as [|[] [|? ?]], y as [|[] [|? ?]]; ring.
+Qed.
+
+Lemma unit_form_GPi2 p : unit_form KGPi2 [p].
+Proof.
+  exists C1; split; [apply Cunit_1|]. intros x y _ _.
+  cbn [map rmat gmat fst snd].
+  rewrite m2_phi, !phi_mul, !phi_opp, phi_conj, phi_ci, phi_one, ang_exp_eval, Cexp_neg.
+  transitivity (cpow rhC 1 * m2C C1 (- Ci * Cconj (Cexp (ang_eval theta p))) (- Ci * Cexp (ang_eval theta p)) C1 x y); [|ring].
+  apply m2C_scale; simpl; unfold rhC; ring.
+Qed.
+
+Lemma unit_form_MS p0 p1 : unit_form KMS [p0; p1].
+Proof.
+  exists C1; split; [apply Cunit_1|]. intros x y _ _.
+  cbn [map rmat gmat fst snd]. rewrite m4_phi.
+  set (a0 := ang_eval theta p0). set (a1 := ang_eval theta p1).
+  transitivity (cpow rhC 1 * m4C (fun a b c d : bool =>
+      phi (if Bool.eqb a c && Bool.eqb b d then one
+           else if Bool.eqb a (negb c) && Bool.eqb b (negb d)
+                then lp_mul (lp_opp ci) (lp_mul (if a then ang_exp p0 else lp_conj (ang_exp p0))
+                                                 (if b then ang_exp p1 else lp_conj (ang_exp p1)))
+                else lp0)) x y); [|ring].
+  apply m4C_scale. intros x0 x1 y0 y1.
+  destruct (Bool.eqb x0 y0 && Bool.eqb x1 y1).
+  - rewrite phi_one. simpl. unfold rhC. ring.
+  - destruct (Bool.eqb x0 (negb y0) && Bool.eqb x1 (negb y1)).
+    + rewrite !phi_mul, phi_opp, phi_ci.
+      destruct x0, x1; rewrite ?phi_conj, !ang_exp_eval, ?Cexp_neg; fold a0 a1; simpl; unfold rhC; ring.
+    + rewrite phi_0. ring.
+Qed.
 End Unit2.
 
 (* ---------------------------------------------------------------- main theorems *)
 Definition gate_ok (g : gate) : bool :=
-  gate_wfb g && (if gkind_eqb (gk g) KU3 then match gas g with t :: _ => Z.even (api4 t) | [] => false end else true).
+  gate_wfb g && (if gkind_eqb (gk g) KU3 || gkind_eqb (gk g) KU1q
+                 then match gas g with t :: _ => Z.even (api4 t) | [] => false end else true).
 
 Lemma eg_eM g : eM (eg g) = fst (gmat (gk g) (gas g)).
 Proof. unfold eg. destruct (gmat (gk g) (gas g)); reflexivity. Qed.
@@ -302,6 +414,12 @@ Proof.
   - destruct as_ as [|a [|? ?]]; try discriminate. apply unit_form_U1.
   - destruct as_ as [|a [|a' [|? ?]]]; try discriminate. apply unit_form_U2.
   - destruct as_ as [|a [|a' [|a'' [|? ?]]]]; try discriminate. apply unit_form_U3. exact Hu3.
+  - destruct as_ as [|a [|a' [|? ?]]]; try discriminate. apply unit_form_U1q. exact Hu3.
+  - destruct as_ as [|a [|? ?]]; try discriminate. apply unit_form_RZZ.
+  - destruct as_ as [|a [|? ?]]; try discriminate. apply unit_form_XX.
+  - destruct as_ as [|a [|? ?]]; try discriminate. apply unit_form_GPi.
+  - destruct as_ as [|a [|? ?]]; try discriminate. apply unit_form_GPi2.
+  - destruct as_ as [|a [|a' [|? ?]]]; try discriminate. apply unit_form_MS.
 Qed.
 
 Section Main.
